@@ -108,16 +108,30 @@ def _inv2(env, D, k):
 class _LCOp(_Backend):
     """LinearCombination.<op> of the dict-based backends (snarkjs, zkinterface)."""
     op = None
+    loop_needs_confirmation = True
+
+    SHAPES = [((), ()), ((0,), ()), ((), (1, 2)), ((1,), (1,)), ((1,), (0, 1, -1)), ((0, 1, -1), (1,)), ((0, 2), (1, -3)), ((-1, -2, 3), (-2, 3, 4))]
 
     def configs(self, tier):
-        return [dict(shape="arbitrary finite maps")]
+        # the unbounded proof (loop invariants) and, next to it, the same clauses on concrete key sets with
+        # symbolic coefficients: no invariant is involved there, so a rewritten loop is still decided
+        return [dict(shape="arbitrary finite maps")] + [dict(shape="keys", a=list(x), b=list(y)) for x, y in self.SHAPES]
 
     def setup(self, c, cfg):
         m = self.mod(c)
         LC = m.LinearCombination
+        if cfg["shape"] == "keys":
+            da = {k: SymInt(z3.Int("s_a%d" % i)) for i, k in enumerate(cfg["a"])}
+            db = {k: SymInt(z3.Int("s_b%d" % i)) for i, k in enumerate(cfg["b"])}
+            a = LC(da)
+            b = LC(db) if self.op in ("__add__", "__sub__") else (c.public_int("k") if self.op == "__mul__" else None)
+            self._saved = (dict(da), dict(db))
+            fn = getattr(LC, self.op)
+            return fn, (a,) if b is None else (a, b), {}
         a = LC(SymMap("a"))
         b = LC(SymMap("b")) if self.op in ("__add__", "__sub__") else (c.public_int("k") if self.op == "__mul__" else None)
-        c.w.builtins["dict"] = _DictProxy(lambda *x, **y: SymMap.empty("lc") if not x and not y else dict(*x, **y))
+        c.w.builtins["dict"] = _DictProxy(lambda *x, **y: SymMap.empty("lc") if not x and not y else
+                                          (x[0].copy() if len(x) == 1 and isinstance(x[0], SymMap) and not y else dict(*x, **y)))
         addname = self.module + ":LinearCombination.__add__"
         c.w.loop_hooks[(addname, 0)] = MapLoop(["lc"], _inv1, "add.loop1")
         c.w.loop_hooks[(addname, 1)] = MapLoop(["lc"], _inv2, "add.loop2")
@@ -128,7 +142,37 @@ class _LCOp(_Backend):
     def spec(self, ca, cb):
         raise NotImplementedError
 
+    def post_keys(self, c, r, a, b):
+        """the same clauses on concrete key sets (coefficients symbolic)"""
+        LC = self.mod(c).LinearCombination
+        d = {"V.type": isinstance(r, LC) and isinstance(r.lc, dict)}
+        if not d["V.type"]:
+            return d
+        sa, sb = self._saved
+        co = lambda dd, k: term(dd[k]) if k in dd else z3.IntVal(0)
+        keys = set(sa) | set(sb) | set(r.lc)
+        if self.op in ("__add__", "__sub__"):
+            sgn = 1 if self.op == "__add__" else -1
+            d["V.coefficients"] = And(*[co(r.lc, k) == co(sa, k) + sgn * co(sb, k) for k in keys]) if keys else True
+            d["V.support"] = set(r.lc) <= set(sa) | set(sb)
+            d["F.operands_unchanged"] = (list(a.lc.items()) == list(sa.items()) and list(b.lc.items()) == list(sb.items())
+                                         and all(a.lc[k] is sa[k] for k in sa) and all(b.lc[k] is sb[k] for k in sb))
+            d["F.fresh_result"] = r is not a and r is not b and r.lc is not a.lc and r.lc is not b.lc
+        elif self.op == "__mul__":
+            d["V.coefficients"] = And(*[co(r.lc, k) == imul(co(sa, k), term(b)) for k in keys]) if keys else True
+            d["V.support"] = set(r.lc) == set(sa)
+            d["F.operands_unchanged"] = list(a.lc.items()) == list(sa.items()) and all(a.lc[k] is sa[k] for k in sa)
+            d["F.fresh_result"] = r is not a and r.lc is not a.lc
+        else:
+            d["V.coefficients"] = And(*[co(r.lc, k) == -co(sa, k) for k in keys]) if keys else True
+            d["V.support"] = set(r.lc) == set(sa)
+            d["F.operands_unchanged"] = list(a.lc.items()) == list(sa.items()) and all(a.lc[k] is sa[k] for k in sa)
+            d["F.fresh_result"] = r is not a and r.lc is not a.lc
+        return d
+
     def post(self, c, r, a, b=None):
+        if c.cfg.get("shape") == "keys":
+            return self.post_keys(c, r, a, b)
         k = cur().fresh("k")
         instantiate(k)
         LC = self.mod(c).LinearCombination
